@@ -513,3 +513,53 @@ def feasible_flags(path):
                 if isinstance(n, ast.Name) and isinstance(n.ctx, ast.Store):
                     env.pop(n.id, None)
     return True
+
+
+# ---------------------------------------------------------------------------
+# straight-line dependency analysis inside one branch
+# ---------------------------------------------------------------------------
+def branch_return_deps(stmts, roots):
+    """For a straight-line-ish statement list (nested ifs are followed on both arms,
+    the dependency sets are joined), compute for every `return <expr>` the set of
+    `roots` (dotted prefixes such as "node.args", "self.arg") its value depends on through local
+    assignments made *in this branch*.  -> list of (Return node, set of roots)."""
+    out = []
+
+    def expr_deps(e, env):
+        deps = set()
+        for x in ast.walk(e):
+            if isinstance(x, ast.Name) and isinstance(x.ctx, ast.Load) and x.id in env:
+                deps |= env[x.id]
+            if isinstance(x, (ast.Attribute, ast.Name)):
+                d = dotted(x)
+                if d:
+                    for r in roots:
+                        if d == r or d.startswith(r + ".") or d.startswith(r + "["):
+                            deps.add(r)
+            if isinstance(x, ast.Subscript):
+                d = dotted(x.value)
+                if d:
+                    for r in roots:
+                        if d == r or d.startswith(r + "."):
+                            deps.add(r)
+        return deps
+
+    def walk(body, env):
+        for st in body:
+            if isinstance(st, ast.Assign):
+                deps = expr_deps(st.value, env)
+                for t in st.targets:
+                    if isinstance(t, ast.Name):
+                        env[t.id] = deps
+            elif isinstance(st, ast.Return) and st.value is not None:
+                out.append((st, expr_deps(st.value, env)))
+            elif isinstance(st, ast.If):
+                e1, e2 = dict(env), dict(env)
+                walk(st.body, e1)
+                walk(st.orelse, e2)
+                for k in set(e1) | set(e2):
+                    env[k] = e1.get(k, set()) | e2.get(k, set())
+            elif isinstance(st, (ast.For, ast.While, ast.With, ast.Try)):
+                walk(getattr(st, "body", []), env)
+    walk(stmts, {})
+    return out
